@@ -2,6 +2,7 @@ package main
 
 import (
 	"fmt"
+	"go/constant"
 	"go/token"
 	"go/types"
 	"strings"
@@ -271,7 +272,12 @@ func discardAllowed(w *World, c ssa.CallInstruction, sc *ssa.Function) (string, 
 		isPkgFunc(sc, "fmt", "Printf") || isPkgFunc(sc, "fmt", "Println") || isPkgFunc(sc, "fmt", "Print"):
 		return "formatted progress/diagnostic output; the text-out writer is a bufio.Writer whose sticky error surfaces in finish()", true
 	case isMethodFunc(sc, "flag", "FlagSet", "Parse"):
-		return "flag sets are created with flag.ExitOnError", true
+		// true only while it is: with another error handling Parse returns its error, and a command whose Parse drops it
+		// runs with whatever was parsed before the bad option
+		if !flagSetsExitOnError(w) {
+			return "", false
+		}
+		return "every flag set of the module is created with flag.ExitOnError (checked)", true
 	case isMethodFunc(sc, "strings", "Builder", sc.Name()) || isMethodFunc(sc, "bytes", "Buffer", sc.Name()):
 		return "in-memory builder: documented never to fail", true
 	case isMethodFunc(sc, libPath, "Whisper", "Close") && isDefer:
@@ -924,4 +930,28 @@ func onRecognisedEdge(c *ssa.Call, ret *ssa.Return) bool {
 		return true
 	}
 	return okEdge
+}
+
+// flagSetsExitOnError: every flag.NewFlagSet call in the module passes the constant flag.ExitOnError.
+func flagSetsExitOnError(w *World) bool {
+	want := int64(1)
+	if p := w.All["flag"]; p != nil && p.Types != nil {
+		if c, ok := p.Types.Scope().Lookup("ExitOnError").(*types.Const); ok {
+			want, _ = constant.Int64Val(c.Val())
+		}
+	}
+	n := 0
+	for _, f := range w.modFuncs {
+		for _, c := range callsIn(f) {
+			if !isCallToPkgFunc(c, "flag", "NewFlagSet") || len(c.Common().Args) != 2 {
+				continue
+			}
+			n++
+			k, ok := constInt(c.Common().Args[1])
+			if !ok || k != want {
+				return false
+			}
+		}
+	}
+	return n > 0
 }
